@@ -9,18 +9,24 @@
 use vstd::prelude::*;
 verus! {
 //@include contracts/r/prelude.rs
-#[verifier::external_body] pub struct L_Profile { _p: () }
-//@ltype DFTProfile => L_Profile
+#[verifier::external_body] pub struct L_DensityArray { _p: () }
+//@lrecord DFTProfile density:L_DensityArray
+//@ltype DFTProfile => L_DFTProfile
 //@lenum feos-dft/src/profile/mod.rs DFTSpecifications
 //@ltype Self => L_DFTSpecifications
 //@lift feos-dft/src/profile/mod.rs DFTSpecifications@DFTSpecification::calculate_bulk_density named_sums
+//@end
+
+//@lextern integrate_reduced_comp(L_DFTProfile, L_DensityArray) -> RArr
+//@lextern total_moles(L_DFTProfile) -> real
+//@lift feos-dft/src/profile/mod.rs DFTSpecifications::total_moles_from_profile name=spec_total_from_profile
 //@end
 
 proof fn lemma_div_mul(m: real, z: real) by(nonlinear_arith)
     requires z != 0real
     ensures (m / z) * z == m {}
 /// `Moles`: the stationary profile contains the specified amount of every component
-pub proof fn contract_c18_3_moles(profile: L_Profile, moles: RArr, bulk: RArr, z: RArr, i: int)
+pub proof fn contract_c18_3_moles(profile: L_DFTProfile, moles: RArr, bulk: RArr, z: RArr, i: int)
     requires (z.at)(i) != 0real
     ensures
         calculate_bulk_density(L_DFTSpecifications::Moles { moles }, profile, bulk, z) is Ok,
@@ -29,7 +35,7 @@ pub proof fn contract_c18_3_moles(profile: L_Profile, moles: RArr, bulk: RArr, z
     lemma_div_mul((moles.at)(i), (z.at)(i));
 }
 /// default specification: the bulk state is unchanged
-pub proof fn contract_c18_3_chemical_potential(profile: L_Profile, bulk: RArr, z: RArr)
+pub proof fn contract_c18_3_chemical_potential(profile: L_DFTProfile, bulk: RArr, z: RArr)
     ensures calculate_bulk_density(L_DFTSpecifications::ChemicalPotential, profile, bulk, z) == Ok::<RArr, LErr>(bulk)
 {}
 proof fn lemma_rsum_scale(n: int, f: spec_fn(int) -> real, g: spec_fn(int) -> real, c: real)
@@ -52,7 +58,7 @@ proof fn lemma_cancel(s: real, t: real) by(nonlinear_arith)
     requires s != 0real
     ensures s * (t / s) == t {}
 /// `TotalMoles`: the stationary profile contains the specified total amount, and the bulk composition is kept
-pub proof fn contract_c18_3_total_moles(profile: L_Profile, total: real, bulk: RArr, z: RArr)
+pub proof fn contract_c18_3_total_moles(profile: L_DFTProfile, total: real, bulk: RArr, z: RArr)
     requires bulk.len == z.len, bulk.len >= 0, rsum(bulk.len, |i: int| (bulk.at)(i) * (z.at)(i)) != 0real
     ensures
         calculate_bulk_density(L_DFTSpecifications::TotalMoles { total_moles: total }, profile, bulk, z) is Ok,
@@ -78,5 +84,15 @@ proof fn lemma_rsum_ext(n: int, f: spec_fn(int) -> real, g: spec_fn(int) -> real
     ensures rsum(n, f) == rsum(n, g)
     decreases n
 { if n > 0 { lemma_rsum_ext(n - 1, f, g); } }
+
+/// C18.3c: the total amount taken from a profile for the `TotalMoles` specification is the sum of the integrals over ALL
+/// SEGMENTS - the quantity `calculate_bulk_density` normalises with (sum_s rho_b,s z_s): for heterosegmented functionals
+/// the sum over components would be smaller by the number of segments per molecule
+pub proof fn contract_c18_3_total_taken_over_segments(profile: L_DFTProfile)
+    ensures ({
+        let z = integrate_reduced_comp(profile, profile.density);
+        spec_total_from_profile(profile) == (L_DFTSpecifications::TotalMoles { total_moles: rsum(z.len, z.at) })
+    })
+{}
 } // verus!
 fn main() {}
